@@ -67,8 +67,16 @@ Proof. reflexivity. Qed.
 Lemma skel_am_campaignAllocatorLeader_ok : skel_am_campaignAllocatorLeader =
   [Call "CampaignAllocatorLeader"; IfE "err != nil" [Ret] []; Call "Initialize"; IfE "err != nil" [Ret] []; IfE "dcLocationInfo.GetMaxTs().GetPhysical() != 0" [Call "WriteTSO"; IfE "err != nil" [Ret] []] []; Call "compareAndSetMaxSuffix"; Call "EnableAllocatorLeader"; ForE [SwitchE [[IfE "!allocator.IsAllocatorLeader()" [Ret] []]; [Ret]]]].
 Proof. reflexivity. Qed.
+(* the periodic checker (only once a PD leader is known) and the refresh a new PD leader runs before its Global allocator
+   serves (no such proviso) share one body: read the dc-locations from etcd; the PD leader assigns missing suffixes, every
+   other member adopts the largest suffix in etcd; a read error is reported to the caller *)
 Lemma skel_am_ClusterDCLocationChecker_ok : skel_am_ClusterDCLocationChecker =
-  [IfE "am.member.GetLeader() == nil" [Ret] []; Call "GetClusterDCLocationsFromEtcd"; IfE "err != nil" [Ret] []; Lock "am.mu"; ForE [IfE "!ok" [Call "delete"] []]; Call "IsLeader"; IfE "am.member.IsLeader()" [ForE [IfE "info.Suffix > 0" [Cont] []; Call "getOrCreateLocalTSOSuffix"; IfE "err != nil" [Cont] []; IfE "suffix > am.mu.maxSuffix" [Assign "am.mu.maxSuffix" "= suffix"] []; Assign "am.mu.clusterDCLocations[dcLocation].Suffix" "= suffix"]] [Call "getMaxLocalTSOSuffix"; Assign "maxSuffix" ":= am.getMaxLocalTSOSuffix()"; IfE "err != nil" [ForE [Call "delete"]] [IfE "maxSuffix > am.mu.maxSuffix" [Assign "am.mu.maxSuffix" "= maxSuffix"] []]]; Unlock "am.mu"].
+  [IfE "am.member.GetLeader() == nil" [Ret] []; Call "checkClusterDCLocations"].
+Proof. reflexivity. Qed.
+Lemma skel_am_RefreshClusterDCLocations_ok : skel_am_RefreshClusterDCLocations = [Call "checkClusterDCLocations"; Ret].
+Proof. reflexivity. Qed.
+Lemma skel_am_checkClusterDCLocations_ok : skel_am_checkClusterDCLocations =
+  [Call "GetClusterDCLocationsFromEtcd"; IfE "err != nil" [Ret] []; Lock "am.mu"; ForE [IfE "!ok" [Call "delete"] []]; Call "IsLeader"; IfE "am.member.IsLeader()" [ForE [IfE "info.Suffix > 0" [Cont] []; Call "getOrCreateLocalTSOSuffix"; IfE "err != nil" [Cont] []; IfE "suffix > am.mu.maxSuffix" [Assign "am.mu.maxSuffix" "= suffix"] []; Assign "am.mu.clusterDCLocations[dcLocation].Suffix" "= suffix"]] [Call "getMaxLocalTSOSuffix"; Assign "maxSuffix" ":= am.getMaxLocalTSOSuffix()"; IfE "err != nil" [ForE [Call "delete"]; Unlock "am.mu"; Ret] [IfE "maxSuffix > am.mu.maxSuffix" [Assign "am.mu.maxSuffix" "= maxSuffix"] []]]; Unlock "am.mu"; Ret].
 Proof. reflexivity. Qed.
 Lemma skel_am_compareAndSetMaxSuffix_ok : skel_am_compareAndSetMaxSuffix =
   [Lock "am.mu"; DeferUnlock "am.mu"; IfE "suffix > am.mu.maxSuffix" [Assign "am.mu.maxSuffix" "= suffix"] []].
